@@ -53,7 +53,7 @@ func CertsTLCP(ident string) []tlcp.Certificate {
 func BuildTLCP(e EPConfig, reg *Registry) *tlcp.Config {
 	p := GetPKI()
 	c := &tlcp.Config{
-		Time:               Now,
+		Time:               func() time.Time { return Now().AddDate(e.TimeShiftYears, 0, 0) },
 		Certificates:       CertsTLCP(e.Ident),
 		NextProtos:         e.ALPN,
 		ServerName:         e.ServerName,
